@@ -1,5 +1,5 @@
 (* C15 property theorems: statements + `exact lemma` only. *)
-From CJ Require Import Common.Base C15.Model C15.Proofs C15.ModelName C15.ProofsName C15.ModelObf C15.ProofsObf C15.ModelAny C15.ProofsAny C15.ModelDns C15.ProofsDns C15.ModelExch C15.ProofsExch.
+From CJ Require Import Common.Base C15.Model C15.Proofs C15.ModelName C15.ProofsName C15.ModelObf C15.ProofsObf C15.ModelAny C15.ProofsAny C15.ModelDns C15.ProofsDns C15.ModelExch C15.ProofsExch C15.ModelB32 C15.ProofsB32.
 
 Theorem C15_request_format_roundtrip :
   forall p e, add_request_format p = Some e -> remove_request_format e = Some p.
@@ -254,3 +254,20 @@ Theorem C15_dns_exchange_roundtrip :
           requester_receive cipher cs_decrypt cs dom w = Some r.
 Proof. exact exchange_response_fits_b. Qed.
 Print Assumptions C15_dns_exchange_roundtrip.
+
+(* ---- base32 concretely (model of Go's StdEncoding without padding, tied by the correspondence run):
+   the coding law assumed above is a theorem for it ---- *)
+Theorem C15_b32_roundtrip : forall p, wf_bytes p = true -> b32_decode (upper (lower (b32_encode p))) = Some p.
+Proof. exact b32_roundtrip_concrete. Qed.
+Print Assumptions C15_b32_roundtrip.
+
+Theorem C15_exchange_laws_b32 :
+  forall (cipher : Type) (noise_write : bytes -> bytes -> bytes -> option (bytes * cipher))
+         (noise_read : bytes -> bytes -> option (bytes * cipher))
+         (cs_encrypt cs_decrypt : cipher -> bytes -> option bytes) (pub_of : bytes -> bytes),
+    (forall rnd k p hs cs, noise_write rnd (pub_of k) p = Some (hs, cs) ->
+       wf_bytes hs = true /\
+       exists cs', noise_read k hs = Some (p, cs') /\ forall r enc, cs_encrypt cs' r = Some enc -> cs_decrypt cs enc = Some r) ->
+    exchange_laws b32_encode b32_decode cipher noise_write noise_read cs_encrypt cs_decrypt pub_of.
+Proof. exact exchange_laws_b32. Qed.
+Print Assumptions C15_exchange_laws_b32.
